@@ -62,6 +62,8 @@ pub struct Ctx {
     /// metadata log (C19): one line per case, compared between the f64 and the f32 build
     pub meta: Option<Vec<String>>,
     pub max_samples: usize,
+    /// prepended to every violation signature (C19 runs the C01-C07 monitors under its own property id)
+    pub sig_prefix: String,
 }
 
 impl Ctx {
@@ -86,6 +88,7 @@ impl Ctx {
             verbose: false,
             meta: None,
             max_samples: 6,
+            sig_prefix: String::new(),
         }
     }
     pub fn count(&mut self, name: &str, n: u64) {
@@ -120,6 +123,13 @@ impl Ctx {
         }
     }
     pub fn violation(&mut self, sig: &str, detail: String) {
+        let prefixed;
+        let sig = if self.sig_prefix.is_empty() {
+            sig
+        } else {
+            prefixed = format!("{}{}", self.sig_prefix, sig);
+            &prefixed
+        };
         self.violation_count += 1;
         *self.sig_counts.entry(sig.to_string()).or_insert(0) += 1;
         let per_sig = self.violations.iter().filter(|v| v.sig == sig).count();
